@@ -912,7 +912,6 @@ func tableReason(t *panicob.Table, key string) string {
 	return ""
 }
 
-
 // checkCycleGuardUnconditional: ensureNoInfiniteRecursion is the cycle check that
 // allOf / oneOf / anyOf generation relies on before it merges or walks the
 // members. (a) It must not report success without having walked: every
@@ -1004,7 +1003,6 @@ func resolveLocalClosure(v ssa.Value) (*ssa.Function, []ssa.Value) {
 	}
 	return nil, nil
 }
-
 
 // checkFileReadFresh (R11.7): the position info of a parsed schema is built by
 // Parser.extendInfo from the file that is current in the resolve context. The
@@ -1117,7 +1115,6 @@ func checkFileReadFresh(c *core.Ctx, prog *core.Prog) {
 	}
 }
 
-
 // rootFileReaders: functions that may read the parser's rootFile although a
 // resolve context is around, one reason each.
 var rootFileReaders = map[string]string{
@@ -1214,7 +1211,6 @@ func checkRootFileOnlyForRoot(c *core.Ctx, prog *core.Prog) {
 		}
 	}
 }
-
 
 // derefsParamAtEntry: the function dereferences its i-th parameter in its
 // entry block (before any branch could have tested it).
